@@ -16,14 +16,15 @@ MUTANTS = {
         )
 """, """        self.alphasets_shape = alphasets_shape
 """)]),
-    "C03-code4p-precompute-initial-shape": dict(prop="C03", expect="violation", edits=[
-        ("interpolators/code4p.py",
-         """        self.broadcast_helper = tensorlib.astensor(self._broadcast_helper)
-        self.mask_on = tensorlib.ones(self.alphasets_shape)
-        self.mask_off = tensorlib.zeros(self.alphasets_shape)
-""", """        self.broadcast_helper = tensorlib.astensor(self._broadcast_helper)
-        self.mask_on = tensorlib.ones((self._histogramssets.shape[0], 1))
-        self.mask_off = tensorlib.zeros((self._histogramssets.shape[0], 1))
+    "C03-code4-stale-ones-after-shape-change": dict(prop="C03", expect="violation", edits=[
+        ("interpolators/code4.py",
+         """        self.mask_off = tensorlib.zeros(self.alphasets_shape)
+        self.ones = tensorlib.einsum(
+            'sa,shb->shab', self.mask_on, self.broadcast_helper
+        )
+        return
+""", """        self.mask_off = tensorlib.zeros(self.alphasets_shape)
+        return
 """)]),
     "C03-code4-Ainverse-digit": dict(prop="C03", expect="violation", edits=[
         ("interpolators/code4.py", "                    -7.0 / 16.0,\n                    -7.0 / 16.0,\n                    1.0 / 16 * alpha0,",
@@ -31,7 +32,7 @@ MUTANTS = {
     "C03-code4p-coefficient": dict(prop="C03", expect="violation", edits=[
         ("interpolators/code4p.py", "tmp2 = asquare * tmp1 + 15.0", "tmp2 = asquare * tmp1 + 14.0")]),
     "C03-code0-slow-sign": dict(prop="C03", expect="violation", edits=[
-        ("interpolators/code0.py", "delta = (nom - down) * alpha", "delta = (nom - down) * abs(alpha)")]),
+        ("interpolators/code0.py", "delta = delta_down * alpha", "delta = delta_down * abs(alpha)")]),
     # ---------------- C11 ----------------------------------------------------
     "C11-shapefactor-not-subscribed": dict(prop="C11", expect="violation", edits=[
         ("modifiers/shapefactor.py", "        events.subscribe('tensorlib_changed')(self._precompute)\n", "")]),
